@@ -30,7 +30,7 @@ ASSUMPTIONS = ["first column compared with the requested initial state cast to t
                "positivity: a value of exactly 0 is accepted for exponential-type prices only as underflow, i.e. when no neighbour on the same "
                "path exceeds 1e-20",
                "half precisions: only default-scale parameters; missing CPU kernels (NotImplementedError / 'not implemented for') are tolerated and counted"]
-PROBES = ["qe_psi_le_1.5", "qe_psi_gt_1.5", "init_nondefault", "init_default", "resim_shape_change", "via_derivative",
+PROBES = ["simulate_aborted", "generator_aborted", "qe_psi_le_1.5", "qe_psi_gt_1.5", "init_nondefault", "init_default", "resim_shape_change", "via_derivative",
           "via_compute_loss", "via_price", "via_fit", "via_lazy_materialisation", "default_dtype_flip", "cast_then_simulate",
           "n_steps_1", "n_steps_2", "half_precision", "half_kernel_missing", "generator_direct", "float64", "volatility_checked_after_cast", "init_bare_scalar"]
 BUFFERS = {"BrownianStock": ["spot"], "HestonStock": ["spot", "variance"], "CIRRate": ["spot"], "VasicekRate": ["spot"],
@@ -81,8 +81,20 @@ def generate(rng):
     world = {"primaries": [prim], "derivatives": [d], "models": [m], "criteria": [], "hedgers": [h]}
     ops = []
     for _ in range(rng.randint(3, 10)):
-        k = rng.wchoice([("simulate", 5), ("via", 3 if steps >= 1 else 0), ("cast", 1), ("default_dtype", 1), ("generate", 3)])
+        k = rng.wchoice([("simulate", 5), ("via", 3 if steps >= 1 else 0), ("cast", 1), ("default_dtype", 1), ("generate", 3), ("failed", 1.5)])
         init = gen_init(rng, kind, params) if rng.chance(0.4) else None
+        if k == "failed":
+            # F8: a simulation is aborted half-way (the caller's engine / sigma_fn raises, or an argument is rejected deep inside):
+            # the instrument keeps its previous complete sample (or none), and nothing global is left changed
+            if rng.chance(0.5):
+                ops.append({"op": "failed_simulate", "how": rng.choice(["callback", "callback", "negative_n_paths"]), "at": rng.randint(0, 3),
+                            "n_paths": rng.choice([1, 3, 7]), "time_horizon": rng.choice([1, 4, 9]) * dt, "torch_seed": rng.seed31()})
+            else:
+                fn = rng.choice(["generate_brownian", "generate_geometric_brownian", "generate_merton_jump", "generate_kou_jump",
+                                 "generate_local_volatility_process", "generate_heston", "generate_cir", "generate_vasicek"])
+                ops.append({"op": "failed_generate", "fn": fn, "dtype": rng.choice([None, "float32", "float64", "float64"]),
+                            "at": rng.randint(0, 3), "n_paths": rng.choice([2, 5]), "n_steps": rng.choice([2, 5, 9]), "torch_seed": rng.seed31()})
+            continue
         if k == "simulate":
             if rng.chance(0.5):
                 ops.append({"op": "simulate", "target": "d0", "n_paths": rng.choice([1, 2, 3, 7, 50]), "init_state": init, "torch_seed": rng.seed31()})
@@ -203,6 +215,15 @@ def _norm_init(init):
     return tuple(float(x) for x in init)
 
 
+# the default dtype the *user* has set (program env + default_dtype ops); the library's own torch.get_default_dtype() is not
+# trusted as the reference, so a default that a call changed behind the user's back shows up as a wrong series dtype
+_DEF = [torch.float32]
+
+
+class _Boom(RuntimeError):
+    pass
+
+
 class SimWatcher:
     """instance-level wrapper around primary.simulate: records arguments and runs the invariants
     after every call, whoever made it"""
@@ -232,13 +253,15 @@ class SimWatcher:
         try:
             self.orig(n_paths=n_paths, time_horizon=time_horizon, init_state=init_state)
         except Exception as e:
+            if getattr(self, "expect_failure", False):
+                raise
             one = "[single time point]" if time_horizon == 0 else ""
             raise Violation(ID, "op_raised", "%s%s:%s" % (site, one, type(e).__name__), {
                 "error": repr(e)[:300], "n_paths": n_paths, "time_horizon": time_horizon, "init_state": init_state,
                 "dtype": str(p.dtype), "trigger": self.trigger}, seq)
         self.calls.append({"n_paths": n_paths, "time_horizon": time_horizon, "init_state": init_state, "trigger": self.trigger})
         st.probe("via_" + self.trigger) if self.trigger != "direct" else None
-        dtype = p.dtype if p.dtype is not None else torch.get_default_dtype()
+        dtype = p.dtype if p.dtype is not None else _DEF[0]
         bufs = {n: b for n, b in p.named_buffers()}
         want = BUFFERS[self.kind]
         st.checks += 1
@@ -304,7 +327,10 @@ class SimWatcher:
                     # a column "survives" if it is bitwise the old one on every path; columns sitting at the
                     # absorbing value 0 (QE scheme, psi > 1.5) are excluded: they coincide legitimately
                     same_cols = (ref[:, 1:tcommon] == new[:, 1:tcommon]).all(dim=0) & (new[:, 1:tcommon] != 0).any(dim=0)
-                    if bool(same_cols.any()) and not _constant(new):
+                    # one float32 value repeating on a single path is a ~1e-6 coincidence, and the search makes millions of
+                    # such comparisons (silence seed 319): demand two paths, or two columns of a single path
+                    enough = int(same_cols.sum()) >= (1 if ref.shape[0] >= 2 else 2)
+                    if enough and not _constant(new):
                         raise Violation(ID, "stale_columns", site, {"buffer": n, "columns_kept": same_cols}, seq)
         if self.expect is not None and self.lazy_pending and self.trigger == "fit":
             self.lazy_pending = False
@@ -338,6 +364,7 @@ def execute(program):
 def _execute(program, stats, hist):
     import pfhedge.stochastic as st_mod
     torch.set_default_dtype(DT[program["env"].get("default_dtype", "float32")])
+    _DEF[0] = DT[program["env"].get("default_dtype", "float32")]
     try:
         world = World(program["world"], record_models=False)
     except Exception as e:
@@ -363,6 +390,7 @@ def _one_op(op, world, stats, hist, p, d, h, w, st_mod):
         seq = hist.seq
         if "fault" in op:
             torch.set_default_dtype(DT[op["dtype"]])
+            _DEF[0] = DT[op["dtype"]]
             stats.fault("F4_default_dtype_flip")
             stats.probe("default_dtype_flip")
             hist.add(fault="default_dtype", dtype=op["dtype"])
@@ -390,7 +418,7 @@ def _one_op(op, world, stats, hist, p, d, h, w, st_mod):
             w.trigger, w.expect = "direct", None
         elif name == "via":
             torch.manual_seed(op["torch_seed"])
-            dtype = p.dtype if p.dtype is not None else torch.get_default_dtype()
+            dtype = p.dtype if p.dtype is not None else _DEF[0]
             h.to(dtype)
             k = op["kind"]
             lazy = any(torch.nn.parameter.is_lazy(q) for q in h.parameters())
@@ -434,6 +462,76 @@ def _one_op(op, world, stats, hist, p, d, h, w, st_mod):
             hist.add(op="cast", dtype=op["dtype"])
         elif name == "generate":
             _generate(op, stats, hist, seq, st_mod)
+        elif name in ("failed_simulate", "failed_generate"):
+            calls = [0]
+
+            def boom_engine(*size, dtype=None, device=None, _at=op["at"]):
+                calls[0] += 1
+                if calls[0] > _at:
+                    raise _Boom("injected")
+                return torch.randn(*size, dtype=dtype, device=device)
+
+            def boom_sigma(time, spot, _at=op["at"]):
+                calls[0] += 1
+                if calls[0] > _at:
+                    raise _Boom("injected")
+                return torch.full_like(spot, 0.2)
+            torch.manual_seed(op["torch_seed"])
+            raised = False
+            if name == "failed_simulate":
+                before = {n: (b, b.detach().clone()) for n, b in p.named_buffers()}
+                saved = {}
+                n_paths = op["n_paths"]
+                if op["how"] == "callback" and hasattr(p, "engine"):
+                    saved["engine"], p.engine = p.engine, boom_engine
+                elif op["how"] == "callback" and hasattr(p, "sigma_fn"):
+                    saved["sigma_fn"], p.sigma_fn = p.sigma_fn, boom_sigma
+                else:
+                    n_paths = -1
+                w.expect_failure = True
+                try:
+                    p.simulate(n_paths=n_paths, time_horizon=op["time_horizon"])
+                except Exception:
+                    raised = True
+                finally:
+                    w.expect_failure = False
+                    for k_, v_ in saved.items():
+                        setattr(p, k_, v_)
+                if raised:
+                    after = {n: b for n, b in p.named_buffers()}
+                    stats.checks += 1
+                    intact = sorted(after) == sorted(before) and all(bit_equal(after[n], before[n][1]) for n in after)
+                    if after and not intact:
+                        raise Violation(ID, "half_written_after_failure", "%s.simulate[aborted]" % w.kind, {
+                            "buffers_before": {n: list(v[1].shape) for n, v in before.items()},
+                            "buffers_after": {n: list(b.shape) for n, b in after.items()}, "how": op["how"],
+                            "note": "a simulation that raises must leave the previous complete sample (or none), not a mixture"}, seq)
+                    stats.probe("simulate_aborted")
+            else:
+                kw = {"dtype": DT[op["dtype"]]}
+                fn = op["fn"]
+                if fn == "generate_local_volatility_process":
+                    args = (op["n_paths"], op["n_steps"], boom_sigma)
+                elif fn in ("generate_heston", "generate_cir", "generate_vasicek"):
+                    args = (-1, op["n_steps"])
+                else:
+                    args = (op["n_paths"], op["n_steps"])
+                    kw["engine"] = boom_engine
+                try:
+                    getattr(st_mod, fn)(*args, **kw)
+                except Exception:
+                    raised = True
+                if raised:
+                    stats.probe("generator_aborted")
+            stats.fault("F8_callback_exception")
+            stats.checks += 1
+            if torch.get_default_dtype() != _DEF[0]:
+                got = torch.get_default_dtype()
+                torch.set_default_dtype(_DEF[0])
+                raise Violation(ID, "dtype", "default dtype after an aborted %s" % (w.kind + ".simulate" if name == "failed_simulate" else op["fn"]), {
+                    "default_set_by_user": str(_DEF[0]), "default_now": str(got),
+                    "note": "every later series requested with dtype=None comes out in another dtype than the documented default"}, seq)
+            hist.add(op=name, raised=raised)
         stats.state(abstract_state(world), name)
 
 
@@ -442,7 +540,7 @@ def _generate(op, stats, hist, seq, st_mod):
     gp = dict(op["params"])
     kind = op["kind"]
     dtype = DT[op["dtype"]]
-    wd = dtype if dtype is not None else torch.get_default_dtype()
+    wd = dtype if dtype is not None else _DEF[0]
     half = wd in (torch.float16, torch.bfloat16)
     init = op.get("init_state")
     kw = dict(gp)
